@@ -302,6 +302,44 @@ pub fn cmd_run_c09(tier_name: &str) -> ExitCode {
             }
         }
     }
+    // one decision while another thread flips the global choice, under Miri's seeded scheduler
+    let mut concurrent = json!({"skipped": "cargo +nightly miri or the miri-sim driver is not available"});
+    let driver = format!("{VERIF}/target/miri/release/c19-miri");
+    let have_miri = std::process::Command::new("cargo").args(["+nightly", "miri", "--version"]).output().map(|o| o.status.success()).unwrap_or(false);
+    if violations == 0 && have_miri && std::path::Path::new(&driver).exists() {
+        let n = env_u64("VERIF_C09_MIRI_SEEDS").unwrap_or(if tier == "thorough" { 384 } else { 48 });
+        let mrep_path = format!("{VERIF}/target/tmp/c09-miri-{}.json", std::process::id());
+        let _ = std::fs::create_dir_all(format!("{VERIF}/target/tmp"));
+        let st = std::process::Command::new(&driver).args(["drive09", &seed.to_string(), &n.to_string(), &mrep_path]).env("VERIF_ROOT", &VERIF).status();
+        let text = std::fs::read_to_string(&mrep_path).unwrap_or_default();
+        let _ = std::fs::remove_file(&mrep_path);
+        let Ok(m) = serde_json::from_str::<Value>(&text) else {
+            eprintln!("vsim: HARNESS ERROR: miri-sim (C09) produced no report ({st:?})");
+            return ExitCode::from(2);
+        };
+        if !m["harness_error"].is_null() {
+            eprintln!("vsim: HARNESS ERROR: miri-sim (C09): {}", m["harness_error"]);
+            return ExitCode::from(2);
+        }
+        if !m["violation"].is_null() {
+            let v = &m["violation"];
+            let path = format!("{VERIF}/replays/C09-miri-{seed}-{}.json", v["miri_seed"]);
+            let doc = json!({"property": "C09", "engine": "miri09", "violation_class": v["class"], "violation_detail": v["detail"],
+                "miri_seed": v["miri_seed"], "preemption_rate": v["preemption_rate"], "scenario_seed": v["scenario_seed"], "stderr": v["stderr"],
+                "note": "one thread alternates write_global(AlwaysAnsi)/write_global(Auto) while another calls AutoStream::choice on a Vec; exact replay of (miri seed, preemption rate, scenario seed)",
+                "replay_cmd": format!("{VERIF}/check replay {path}")});
+            let _ = std::fs::create_dir_all(format!("{VERIF}/replays"));
+            let _ = std::fs::write(&path, serde_json::to_string_pretty(&doc).unwrap());
+            println!("violation class={} (decision under a concurrently changing global choice, miri-sim)\n  {}", v["class"].as_str().unwrap_or(""), v["detail"].as_str().unwrap_or(""));
+            println!("VIOLATION property=C09 replay={path}");
+            violations = 1;
+            concurrent = json!({"violation": v});
+        } else {
+            println!("vsim: C09 decisions under a concurrently changing global: {} Miri executions held", m["executions"]);
+            concurrent = json!({"executions": m["executions"], "wall_s": m["wall_s"],
+                "note": "a writer thread alternates write_global(AlwaysAnsi)/write_global(Auto) while a reader calls AutoStream::choice on a non-terminal Vec; every decision must be AlwaysAnsi (the explicit value) or Never (the environment rule), never Auto; -Zmiri-seed, preemption rates 0.01-0.5"});
+        }
+    }
     if violations == 0 && b.cells as u32 != crate::envsim::CELLS {
         eprintln!("vsim: HARNESS ERROR: only {} of {} cross-product cells were visited", b.cells, crate::envsim::CELLS);
         return ExitCode::from(2);
@@ -339,6 +377,7 @@ pub fn cmd_run_c09(tier_name: &str) -> ExitCode {
             "components_stubbed": [],
             "determinism": {"batch_digest": format!("{:016x}", b.digest), "note": "each history resets the world first; 1 in 53 histories is re-executed and its event-log hash compared"},
             "known_findings_hit": known_hits,
+            "decision_under_concurrent_global_changes_miri": concurrent,
         },
         "assumptions": [
             "the world is owned by single-threaded child processes; other processes' environments are irrelevant",
